@@ -14,9 +14,11 @@ RULE = (
     "(a') every chord diagram on k spaced chords (k stems of one pair: all conflict topologies and stem orders), k=5 "
     "quick, k=5,6 thorough; (b) Hypothesis blow-ups: abstract matching of <=8 (quick) / <=12 (thorough) pairs in any crossing pattern, "
     "each expanded into a stem of 1-6 pairs with unpaired runs of 0-5; (c) ladders of k=1..30 mutually crossing "
-    "stems; (d) balanced dot-bracket strings over up to 30 bracket types, built by construction. For every "
+    "stems; (c') long structures: 30-120 stems of 1-15 pairs in a random nested arrangement plus up to 4 crossing "
+    "chords, unpaired runs of 0-30 (60-4000 nt); (d) balanced dot-bracket strings over up to 30 bracket types, built by construction. For every "
     "structure every encoder (dot_bracket, fcfs, each member of all_dot_brackets when the enumeration is "
-    "<=5000 orderings) plus BpSeq text round trip, from_dotbracket and MultiStrandDotBracket.from_string on 1-3 "
+    "<=5000 orderings) plus BpSeq text round trip, the file entry points (BpSeq.from_file, DotBracket.from_file on 2- and 3-line files, "
+    "MultiStrandDotBracket.from_file, with and without a final newline), from_dotbracket and MultiStrandDotBracket.from_string on 1-3 "
     "strands is compared with an independent 30-stack reference decoder. A case is non-trivial when it has a "
     "crossing pair of stems, a zero-length hairpin, two adjacent stems, or needs >=3 levels; distinct = distinct "
     "(sequence, pair set) or (sequence, string)."
@@ -128,6 +130,7 @@ def oracle_structure(case, all_limit=5000) -> list:
             back = BpSeq.from_dotbracket(db)
             if str(back) != text:
                 out.append(D(f"C01:{tag}:from_dotbracket-back", f"from_dotbracket({db.structure!r}) != source BPSEQ"))
+    out += file_entry_points(text, b, seq)
     # multi-strand text path
     s = b.dot_bracket.structure
     if isinstance(s, str) and len(s) == len(seq) and all(ch in "ACGTURYSWKMBDHVNacgturyswkmbdhvn.-" for ch in seq):
@@ -154,6 +157,51 @@ def oracle_structure(case, all_limit=5000) -> list:
             if str(back) != text:
                 out.append(D("C01:multistrand:pairs", f"multi-strand text {txt!r} decodes to other pairs"))
     return out
+
+
+def file_entry_points(text, b, seq) -> list:
+    """BpSeq.from_file / DotBracket.from_file / MultiStrandDotBracket.from_file read what str() of the objects wrote
+    (with and without a final newline; 2-line and 3-line dot-bracket files)"""
+    import os
+
+    from rnaverif.runner import WORK_DIR
+
+    BpSeq, DotBracket, MultiStrandDotBracket = _imports()
+    out = []
+    os.makedirs(WORK_DIR, exist_ok=True)
+    p = os.path.join(WORK_DIR, f"c01_{os.getpid()}.txt")
+    try:
+        for tail in ("", "\n"):
+            with open(p, "w") as f:
+                f.write(text + tail)
+            fb = BpSeq.from_file(p)
+            if not (fb == b) or str(fb) != text:
+                out.append(D("C01:bpseq:from_file", f"from_file differs from from_string for {text[:60]!r} (final newline: {bool(tail)})"))
+        db = b.dot_bracket
+        s = getattr(db, "structure", None)
+        if isinstance(s, str) and len(s) == len(seq) and len(seq) > 0:
+            for header in ("", ">strand_A\n"):
+                for tail in ("", "\n"):
+                    with open(p, "w") as f:
+                        f.write(header + str(db) + tail)
+                    fd = DotBracket.from_file(p)
+                    if fd.sequence != seq or fd.structure != s or sorted(fd.pairs) != sorted(db.pairs):
+                        out.append(D("C01:dotbracket:from_file", f"DotBracket.from_file read {fd.sequence[:40]!r}/{fd.structure[:40]!r} from a {'3' if header else '2'}-line file of {s[:40]!r}"))
+                    if all(ch in "ACGTURYSWKMBDHVNacgturyswkmbdhvn.-" for ch in seq):
+                        fm = MultiStrandDotBracket.from_file(p)
+                        if fm.sequence != seq or fm.structure != s:
+                            out.append(D("C01:multistrand:from_file", f"MultiStrandDotBracket.from_file read {fm.sequence[:40]!r}/{fm.structure[:40]!r}"))
+    finally:
+        try:
+            os.remove(p)
+        except OSError:
+            pass
+    seen, res = set(), []
+    for d in out:
+        if d.sig not in seen:
+            seen.add(d.sig)
+            res.append(d)
+    return res
 
 
 def oracle_string(case) -> list:
@@ -206,6 +254,8 @@ def plan(tier, seed):
             specs.append({"kind": "chords", "k": k, "slice": sl, "of": shards})
     for idx, (kind, n, m) in enumerate(hyp):
         specs.append({"kind": kind, "examples": n, "max_abstract": m, "seed": seed * 1000 + idx})
+    for k in range(4 if tier == "quick" else 16):
+        specs.append({"kind": "large", "examples": 6 if tier == "quick" else 60, "seed": seed * 1000 + 700 + k})
     specs.append({"kind": "ladders", "ks": ladders, "milp_upto": 10 if tier == "quick" else 16})
     return specs
 
@@ -236,6 +286,13 @@ def run_shard(spec) -> ShardResult:
                 check_case(PROP_ID, oracle_structure, case, res, to_json=lambda c: [c[0], list(c[1])])
         res.exhaustive = True
         res.extra[f"chord_diagrams_k{spec['k']}"] = res.evaluations
+    elif kind == "large":
+        # long structures (hundreds to thousands of nucleotides, 30-120 stems of up to 15 pairs, long unpaired runs)
+        run_hypothesis(PROP_ID, ssref.st_large_structures(), oracle_structure, seed=spec["seed"], max_examples=spec["examples"],
+                       result=res, to_json=lambda c: [c[0], [list(p) for p in c[1]]],
+                       classify=lambda c: (classify_structure(c)[0], classify_structure(c)[1] + ["large", f"length>={min(len(c[0]) // 500 * 500, 3000)}"]),
+                       sample_cap=0, shrink=False)
+        res.exhaustive = False
     elif kind == "blowup":
         from hypothesis import strategies as st
 
